@@ -175,7 +175,7 @@ class Session:
             except SimDeadlock as e:
                 out, val = {'k': 'deadlock', 'm': str(e)}, None
         elif fault['kind'] == 'interrupt':
-            self.tracer.arm(fault['at'])
+            self.tracer.arm(fault.get('at'), fault.get('loc'))
             try:
                 try:
                     out, val = outcome_of(api, fn)
@@ -243,7 +243,7 @@ class Session:
         cnt = 0
         armed = False
         if fault and fault.get('kind') == 'interrupt':
-            self.tracer.arm(fault['at'])
+            self.tracer.arm(fault.get('at'), fault.get('loc'))
             armed = True
         try:
             try:
